@@ -257,6 +257,18 @@ def eval_s2d(desc, ctx):
                         cands.append((ii + tx, jj + ty))
         rng.shuffle(cands)
         pts += cands[:2] if cands else [(rng.randrange(nc - 1) + e1, rng.randrange(nr - 1) + 1 - e1)]
+    ftype = "f8"
+    if exact and bil is None and rng.random() < 0.5:
+        F = np.round(F)
+        # whole-number fields as they come out of files: narrow integer types (differences of neighbouring nodes do not
+        # fit the type: uint8 around 128, int16 near its limits) and float32
+        ftype = rng.choice(["u1", "i2", "i4", "f4", "i8"])
+        if ftype == "u1":
+            F = (F - F.min() + (255 - (F.max() - F.min())) // 2).astype("u1") if F.max() - F.min() <= 255 else F
+        elif ftype == "i2":
+            F = (F * (32000 // max(1, int(np.abs(F).max())))).astype("i2")
+        else:
+            F = F.astype(ftype)
     mode = 0 if (exact and mkind in ("nomask", "maskones", "maskshape")) else 1
     ints = [1, mode, nr, nc] + arr_ints(F)
     if mask is None:
@@ -324,7 +336,7 @@ def eval_s2d(desc, ctx):
                     problems.append(f"masked sample at ({x},{y}) = {v}, mean over unmasked nodes = {want}")
                 # the values at masked nodes are irrelevant
                 F2 = F.copy()
-                F2[mask == 0] = 1.0e6
+                F2[mask == 0] = 1.0e6 if F2.dtype.kind == "f" else np.iinfo(F2.dtype).max
                 v2 = float(np.asarray(sample2D(F2, np.array([x]), np.array([y]), **kw)).ravel()[0])
                 if not close(v, v2):
                     problems.append(f"masked sample at ({x},{y}) changes from {v} to {v2} when masked nodes change")
